@@ -1,6 +1,7 @@
 import Martian.Lemmas.Shape
 import Martian.Props.C18.Interleaved
 import Martian.Props.C18.Facts
+import Martian.Props.C18.History
 /-!
 C18 — Traffic shaping delays or cuts a response but never alters its bytes.
 Only property theorems and non-vacuity examples live here.
